@@ -13,6 +13,8 @@ TEXT = {
  "C16": ("model_checking", "Lock-step differential check of the linear algorithm against an independent reference model on symbolic histories and recipe states (stack, double stack, ring buffer, compaction)."),
  "C17": ("model_checking", "Handle look-ups, user-data updates and both enumeration interfaces are checked after every step of symbolic histories / recipes."),
  "C18": ("model_checking", "Coalescing assertion after every step; emptied block compared with a fresh block (observables, internal state modulo symmetries, lock-step requests)."),
+ "C07": ("model_checking", "The real defragmentation planner is driven over real TLSF metadata with symbolic sizes, both algorithms and all copy/ignore/destroy decisions; allocator invariants, reservation of source and destination, source identity and per-move outcomes are decided by the solver at every pass boundary."),
+ "C15": ("model_checking", "Forward progress of every proposed move, per-pass limits with symbolic limit values, pass statistics, and equivalence of a reused and a fresh context are asserted on the same symbolic runs. Termination itself is not decided (stated in the evidence)."),
 }
 NOTE = "Trusted: the symgo engine (own SSA interpreter, validated on every run by native replay of sampled paths), go/ssa, z3 4.8.12 (a sample of queries re-decided by z3 5.1.0 and cvc5), the harness oracles. Environment stubs are listed in DESIGN.md section 2.4. Bounds are stated in the evidence file; everything outside them is outside the claim."
 
